@@ -70,6 +70,15 @@ inductive Ev
   | note (text : String)
 deriving DecidableEq, Repr
 
+/-- `http::HeaderName::from_static` checks its argument against the table `HEADER_CHARS_H2`: the
+header-name characters that are their own stored form (no upper case) — and, a quirk of http
+1.x, the double quote `"` (34), which `HeaderName::from_bytes` refuses.  Compared with the crate
+on all 256 bytes in every run (case kind `kctor`). -/
+def staticNameChar (b : UInt8) : Bool := HMap.headerChar b == some b || b == 34
+
+/-- the strings `HeaderName::from_static` accepts (it panics on the others) -/
+def staticName (src : Bytes) : Bool := !src.isEmpty && src.all staticNameChar
+
 def tag (bin : Bool) : String := if bin then "B" else "A"
 
 /-- `to_bytes()` as the static type `bin` computes it -/
